@@ -36,6 +36,9 @@ type c03Exchange struct {
 }
 
 func c03World(t *testing.T, r *simcore.Run) any {
+	if r.Index%4 == 3 {
+		return c03SCIONWorld(r)
+	}
 	tp := r.Tape
 	// ---- world knobs (swarm)
 	var srvOff time.Duration
